@@ -295,6 +295,35 @@ Definition dense_bd (n : nat) (bd : list nat) : list Z := map (fun i => if memn 
 Definition boundary_matrix (s : list nop) : list (list Z) :=
   map (fun o => match o with NIns _ bd => dense_bd (length s) bd | _ => dense_bd (length s) [] end) s.
 
+(* what Filtered_zigzag_persistence_with_storage does with ignore_cycles_above_dim = dimmax, read on normalised sequences:
+   arrows that insert or remove a cell of dimension > dimmax become identity arrows *)
+Definition skip_op (dimmax : Z) (s : list nop) (o : nop) : nop :=
+  match o with
+  | NIns d bd => if dimmax <? d then NId else o
+  | NRem u => if dimmax <? dim_of s u then NId else o
+  | NId => NId
+  end.
+Definition skip_high (dimmax : Z) (s : list nop) : list nop := map (skip_op dimmax s) s.
+
+(* well-formedness of a keyed sequence: a key is not inserted while it names a present cell, and the boundary keys of an
+   inserted cell of dimension d name present cells of dimension d-1.  [e] : key -> dimension of the present cell *)
+Fixpoint lookupd (e : list (Z * Z)) (k : Z) : option Z :=
+  match e with [] => None | (k', d) :: r => if Z.eqb k k' then Some d else lookupd r k end.
+Definition erased (e : list (Z * Z)) (k : Z) : list (Z * Z) := filter (fun p => negb (Z.eqb k (fst p))) e.
+Fixpoint keyed_ok_aux (e : list (Z * Z)) (ops : list op) : bool :=
+  match ops with
+  | [] => true
+  | Ins k d _ bd :: r =>
+    match lookupd e k with
+    | Some _ => false
+    | None => forallb (fun b => match lookupd e b with Some d' => d' =? d - 1 | None => false end) bd
+              && keyed_ok_aux ((k, d) :: e) r
+    end
+  | Rem k _ :: r => keyed_ok_aux (erased e k) r
+  | Nop :: r => keyed_ok_aux e r
+  end.
+Definition keyed_ok (ops : list op) : bool := keyed_ok_aux [] ops.
+
 (* hypothesis of the alive-count theorem, decidable: no negative multiplicity *)
 Definition mult_nonneg (s : list nop) (k : Z) : bool :=
   let n := length s in
